@@ -6,19 +6,23 @@ import vf
 
 LEVEL = "proof"
 CLAIM = dict(cat="proof", design="§3 C08, Appendix A.4, §2.1 E-S",
-   text="Coq theorems (no axioms) over a small-step interleaving model, one step = one atomic operation, of AtomicValue (CAS lock/unlock, fetch-add, the CAS loop of max), "
-        "LockFree::add, ThreadLock (CAS spin), ThreadSafeVector get_free_element[_safe]/free_element (cursor modulo size with the 2^64 wrap, occupancy and statistics counters), "
-        "Task::lock_dependency/unlock_dependency (two locks, rollback) and TaskQueue add_task/get_task/try_get_task (queue lock, scan from the top, gap closing), for EVERY number of threads, "
-        "EVERY pool size, EVERY task table and EVERY schedule of clients that obey the interface contract: a slot is never owned by two threads, a freed slot can be taken again, "
-        "occupancy counter = slots held = flags set whenever no operation is in flight (and off by at most the operations in flight otherwise), counters lose no update, locks and the queue "
-        "critical section have one holder, queue + handed out = added as multisets (every index handed out at most as often as it was added), a handed-out task comes with all its locks, "
-        "a failed two-lock attempt leaks no lock, and a scan that reaches a task whose locks are free hands out a task. "
-        "Tie: on every run the real classes are executed by real threads under a deterministic scheduler (guarded yield hook before each atomic operation, hook H1) on exhaustive and seeded "
-        "schedules; the extracted model runs the same schedules and every step (operation, variable, value before/after, return value, complete shared state) is compared.",
+   text="27 Coq theorems (no axioms) over a small-step interleaving model, one step = one atomic operation, of AtomicValue (CAS lock/unlock, fetch-add, the CAS loop of max), "
+        "LockFree::add (load + CAS loop), ThreadLock (CAS spin), ThreadSafeVector get_free_element[_safe]/free_element (cursor modulo size with the 2^64 wrap, occupancy and statistics "
+        "counters), Task::lock_dependency/unlock_dependency (two locks, rollback) and TaskQueue add_task/get_task/try_get_task (queue lock, scan from the top, gap closing), for EVERY number "
+        "of threads, EVERY pool size, EVERY task table, EVERY number of queues and EVERY schedule of clients that obey the interface contract (inductive invariants over all reachable states): "
+        "slot_exclusive (also against requests in flight), flag set iff owned, occupancy counter = slots held = flags set when no operation is in flight and too high by at most the number of "
+        "operations in flight otherwise, released_becomes_available (a requester running alone finds a free slot, around the pool and across the 2^64 wrap), counter_no_lost_update "
+        "(pre/post_increment and LockFree::add), max_is_max, lock_exclusive (lock word = holder), queue critical section exclusive, queue_hands_out_once (queue + returned + about to be "
+        "returned = added, as multisets), handout_owns_all_resources, rollback_leaves_no_lock (no lock leaked by any failed attempt), free_resources_imply_handout (a get_task running alone on "
+        "a queue that contains a task with all locks free returns a task), and the necessity of its side condition: a task naming the same lock twice is never handed out (defect D2 at "
+        "container level). Tie: on every run the real classes are executed by real threads under a deterministic scheduler (guarded yield hook before each atomic operation, hook H1) on "
+        "exhaustive and seeded schedules; the extracted model runs the same schedules and every step (operation, variable, value before/after, return value, complete shared state) is compared.",
    note="C++11 seq_cst atomics are modelled as sequentially consistent interleaving (what std::atomic defaults guarantee); plain non-atomic reads/writes (queue array and size under the queue "
         "lock) are modelled as atomic, executed together with the preceding atomic operation of the same thread - stated, not verified; compare_exchange_weak is assumed not to fail spuriously "
-        "(true for lock cmpxchg on x86-64). Queue capacity is a client obligation (add_task does not check it without assertions). Trusted: Coq kernel; ExtrOcamlBasic extraction + OCaml driver, "
-        "harness scheduler and yield hook (correspondence only).",
+        "(true for lock cmpxchg on x86-64). Progress theorems are about a thread that runs alone from the given state (no fairness assumption is made about schedules). Queue capacity is a "
+        "client obligation (add_task does not check it without assertions). Not modelled: MemorySpace::add_photons overflow copy (sequential, no atomic operation of its own beyond "
+        "get_free_buffer), Scheduler::get_task's choice among queues (it only composes get_task/try_get_task), the non-thread-safe clear/get_free_elements methods. "
+        "Trusted: Coq kernel; ExtrOcamlBasic extraction + OCaml driver, harness scheduler and yield hook (correspondence only). Needs /verif/hooks/c08_yield.patch applied to the repository.",
    technique="inductive invariants over all reachable states of an interleaving model + deterministic-scheduler differential correspondence (exhaustive small scope + seeded random)")
 
 HARNESS = os.path.join(vf.VERIF, "harness/c08/sched_harness.cpp")
@@ -389,8 +393,8 @@ def run(ck):
     corp = corpus()
     for name, c in corp:
         cases.append(("c_" + name, c))
-    d2 = 9 if ck.quick else 13
-    d3 = 5 if ck.quick else 8
+    d2 = 9 if ck.quick else 12
+    d3 = 5 if ck.quick else 7
     bounds = {}
     for name, c in corp:
         depth = d2 if c["nthr"] == 2 else d3
@@ -398,7 +402,7 @@ def run(ck):
         for j, e in enumerate(exhaustive(c, depth)):
             cases.append(("x_%s_%d" % (name, j), e))
     nexh = len(cases)
-    nrand = 1500 if ck.quick else 25000
+    nrand = 1500 if ck.quick else 15000
     for i in range(nrand):
         cases.append(("r_%d" % i, gen_random(ck.rng, i)))
     cmap = dict(cases)
@@ -408,6 +412,7 @@ def run(ck):
         ck.breaks.append("the scheduler harness exited with status %d (a thread hung between two yield points or crashed)" % rc_i)
     if not hdr or "sizeof_size_t 8" not in hdr[0]:
         ck.breaks.append("size_t is not 8 bytes wide (%s): the model assumes WORD = 2^64" % hdr)
+    cov = ck.coverage
     mism = 0
     hist = {}
     sigs = set()
@@ -441,6 +446,16 @@ def run(ck):
                     ck.breaks.append("correspondence C08 model <-> containers: " + desc + " case=" + json.dumps(c))
         if len(samples) < 2 and cid in ("c_pool2wrap", "c_queue2"):
             samples.append({"case": cid, "programs": c["progs"], "first_steps": [l for l in blk if l.startswith("s ")][:12], "last": blk[-1]})
+    # the container-level face of defect D2 (theorem C08_same_lock_twice_never_returned) on the real code
+    blk = bi.get("c_samelock")
+    if blk:
+        rets = [l.split()[-1] for l in blk if l.startswith("s ") and " ret " in l and l.split()[2] == "cas_unlock" and l.split()[3].startswith("qlock")]
+        cov["same_lock_twice"] = ("real TaskQueue::get_task/try_get_task on a queue holding a task whose two dependencies are the same (free) lock returned %s: "
+                                  "never handed out, as the model proves" % sorted(set(rets)))
+    if not ck.quick and not (ck.breaks or mism):
+        # extra evidence (thorough tier): the property oracle on every real log; not part of the verdict (DESIGN 2.4)
+        bad = sum(1 for cid, c in cases if bi.get(cid) and oracle(c, bi[cid]))
+        ck.notes.append("thorough: property oracle evaluated on %d agreeing real logs, %d fail" % (len(cases), bad))
     # search on break: the property oracle on every real log
     if ck.breaks or mism:
         found = 0
